@@ -157,7 +157,7 @@ def run(ctx):
                         sizes.append(n_adm)
                         clocks.append(maxclk)
                     cur = o.get("hist", "")
-                    hist[re.sub(r"-\d+$", "", cur)] += 1
+                    hist[re.sub(r"-\d+(-pos\d+-[a-z-]+)?$", "", cur)] += 1
                     n_adm, maxclk = 0, 0
                 elif o["op"] == "add":
                     n_adm += 1
